@@ -74,7 +74,24 @@ func (g *vdb) vlocalise(n *vnode, seed uint64) *vnode {
 	return n
 }
 
+// vunderWhole: following single-source operators down from n, is there a whole-row summarize?
+func vunderWhole(n *vnode) bool {
+	for len(n.kids) == 1 {
+		if n.op == "summarize" && n.whole {
+			return true
+		}
+		n = n.kids[0]
+	}
+	return false
+}
+
 func vshape(n *vnode) string {
+	if n.op == "where" && vunderWhole(n.kids[0]) {
+		// a restriction above a whole-row min/max (open known finding: Where.Transform still
+		// moves conditions on non-by source columns below it) — distinct from the
+		// name-collision case `where-over-summarize`, which stays a regression
+		return "where-over-wholerow-summarize"
+	}
 	s := n.kind()
 	for i, k := range n.kids {
 		if i == 0 {
